@@ -18,7 +18,8 @@ EXTENDS Util
 VARIABLES cfg, k, completed, evals, delivered, exit, phase
 ovars == <<cfg, k, completed, evals, delivered, exit, phase>>
 
-HasF(r) == r \in {"f", "fg"}
+HasF(r) == r \in {"f", "fg", "fb"}          \* "fb": a parallel back-end asks for a batch of B vectors at once
+NFun(r) == IF r = "fb" THEN 2 ELSE IF r \in {"f", "fg"} THEN 1 ELSE 0
 HasG(r) == r \in {"g", "fg"}
 \* does evaluation i (request r) fail, given the failure class ?
 Fails(i, r) ==
@@ -46,12 +47,13 @@ Evaluate ==
 Judge ==
   /\ phase = "judge"
   /\ IF Fails(k, cfg.reqs[k]) THEN phase' = "done" /\ exit' = "toofew" /\ UNCHANGED completed
-     ELSE phase' = "next" /\ completed' = completed + (IF HasF(cfg.reqs[k]) THEN 1 ELSE 0) /\ UNCHANGED exit
+     ELSE phase' = "next" /\ completed' = completed + NFun(cfg.reqs[k]) /\ UNCHANGED exit
   /\ UNCHANGED <<cfg, k, evals, delivered>>
 ONext == CheckBudget \/ Evaluate \/ Judge
 
 \* ---- properties (C14)
-BudgetRespected == cfg.kind = "opt" /\ cfg.maxfun > 0 => completed <= cfg.maxfun
+\* never more than max_functions evaluations, up to one batch for parallel methods
+BudgetRespected == cfg.kind = "opt" /\ cfg.maxfun > 0 => completed <= cfg.maxfun + 1
 TooFewIffFailure == phase = "done" => (exit = "toofew" <=> \E i \in 1..Len(delivered) : delivered[i].failed)
 FailingResultsDelivered == phase = "done" /\ exit = "toofew" => delivered[Len(delivered)].failed
 MaxFunOnlyByBudget == phase = "done" /\ exit = "maxfun" => completed >= cfg.maxfun /\ cfg.maxfun > 0
